@@ -47,7 +47,7 @@ def floors(tier):
     f = {"groups": 300, "schedules": 5000, "schedules_exhaustive_groups": 100, "thread_runs": 100,
          "thread_validations": 5000, "thread_runs_20plus_switches": 50, "observed_switches": 2000,
          "distinct_interleaving_signatures": 50}
-    for k in ("refs", "remote", "regex", "format", "types", "same-schema-object", "verdicts", "dollar-schema", "decimal", "handed-on-store", "custom-scheme-root"):
+    for k in ("refs", "remote", "regex", "format", "types", "same-schema-object", "verdicts", "dollar-schema", "decimal", "handed-on-store", "custom-scheme-root", "shared-handler-document"):
         f["collision:" + k] = 25
     return f
 
@@ -58,7 +58,7 @@ LEAVES = [{"type": "integer"}, {"type": "string"}, {"type": "array"}, {"minimum"
           {"type": "null"}, {"maximum": -5}, {"type": "boolean"}, {"minLength": 5}]
 
 
-def make_member(rng, d, k, kinds):
+def make_member(rng, d, k, kinds, link=None):
     """One validator of a group; `k` is its index (members differ exactly where a shared cache would confuse them)."""
     idk = impl.IDKW[d]
     leafA, leafB = rng.sample(LEAVES, 2)
@@ -90,6 +90,19 @@ def make_member(rng, d, k, kinds):
         props["m1"] = {"$ref": R.STORE_DIR + "shared.json"}
         props["m2"] = {"$ref": R.STORE_DIR + "shared.json#/definitions/q"}
         props["m3"] = {"$ref": R.HANDLER_DIR + "shared.json"}
+    if "shared-handler-document" in kinds:
+        # every member's handler hands out the SAME document object (a constant of the program) under the member's own
+        # URL; the document has no id and refers to a neighbour, which each member's handler serves differently
+        link = link if link is not None else {}
+        shared_doc = link.setdefault("shared_doc", {"properties": {"v": {"$ref": "part.json"}, "w": {"items": {"$ref": "part.json#/definitions/q"}}}})
+        site = "http://shared.example/site%d/" % k        # (a scheme urllib joins relative references under)
+        part = {"type": ["integer", "string", "array", "null"][k % 4], "definitions": {"q": rng.choice(LEAVES)}}
+        def serve(url, part=part, shared_doc=shared_doc, site=site):
+            if not url.startswith(site):
+                raise KeyError("member %d does not serve %s" % (k, url))      # another member's site
+            return shared_doc if url.split("#")[0].endswith("doc.json") else part
+        handlers = {"http": serve}
+        props["sd"] = {"$ref": site + "doc.json"}
     if "regex" in kinds:
         props["x1"] = {"pattern": "^a"}
         props["x2"] = {"patternProperties": {"^a": rng.choice(LEAVES), "b$": rng.choice(LEAVES)}, "additionalProperties": False}
@@ -149,6 +162,8 @@ def make_member(rng, d, k, kinds):
         nums = [Decimal("12.5"), Decimal("0.35"), Decimal("7"), Decimal("100.25"), 21, 7, Decimal("-3.3"), 100, Decimal("0.75")]
         inst["n1"] = rng.choice(nums)
         inst["n2"] = [rng.choice(nums) for _ in range(3)]
+    if "shared-handler-document" in kinds:
+        inst["sd"] = {"v": rng.choice([1, "s", [], None]), "w": [rng.choice([1, "s", "x", 20]), rng.choice([1, "s", None])]}
     if "verdicts" in kinds:
         inst["v1"] = [True, 1, 1.0, False, 0][k % 5] if rng.random() < 0.8 else rng.choice([True, 1])
         inst["v2"] = [1, True, 1.0, "x"][(k + 1) % 4]
@@ -176,7 +191,9 @@ def make_member(rng, d, k, kinds):
 
 def group_plan(gseed):
     rng = random.Random(gseed)
-    kinds = set(rng.sample(["refs", "remote", "regex", "format", "types", "verdicts", "dollar-schema", "decimal"], rng.randrange(1, 4)))
+    kinds = set(rng.sample(["refs", "remote", "regex", "format", "types", "verdicts", "dollar-schema", "decimal", "shared-handler-document"], rng.randrange(1, 4)))
+    if "shared-handler-document" in kinds:
+        kinds -= {"remote", "dollar-schema"}          # (they install handlers of their own for the same scheme)
     n = rng.choice([2, 2, 3])
     if rng.random() < 0.3:
         # several validators built from the very same schema OBJECT (no resolver passed): each still gets its own resolver
@@ -243,7 +260,7 @@ def make_one(gseed, d, k, shared=None, link=None):
         inst = {n_: mk["instance"].get(n_, 1) for n_ in S["properties"]}
         inst["r3"] = {"x": [1, "s", None]}
         return {"schema": S, "instance": inst, "draft": d, "build": (lambda: cls(S))}
-    return make_member(random.Random(gseed * 31 + k), d, k, kinds)
+    return make_member(random.Random(gseed * 31 + k), d, k, kinds, link=link)
 
 
 def make_group(gseed, d):
